@@ -9,7 +9,10 @@
     exclusion [markup_ent] keeps clear of it: in the replacement text read as content -- names at the
     D04 positions are Names, the attributes of an element have distinct names and values without
     entity references, every entity reference is a reference of the literal, every character
-    reference is a legal character -- and no character reference of the literal yields `&`.
+    reference is a legal character; and re-read as an attribute value (when it holds no `<`) it is
+    read to its end, its entity references are references of the literal and its character
+    references are legal.  A `&` that comes from a character reference is allowed as long as these hold
+    (the usual <!ENTITY lt "&#38;#60;"> is covered).
 
     Same route as Proofs/XmlWFSyntaxEntRec.v: (A) the model's depth-first check answers Ok only for
     entities GOOD at some height ([goodb2]: now including "the replacement text is content" in content
@@ -70,10 +73,20 @@ Definition piece_names (vs : list ent_value) : list str :=
 Definition markup_piece (v : ent_value) : bool :=
   match v with
   | XvText _ => true
-  | XvCharacter num r => negb (W.number (radix_n r) num =? 38)
+  | XvCharacter _ _ => true
   | XvEntity n => is_Name n
   | XvParameter _ => false
   end.
+(** the replacement text re-read as an attribute value (when it holds no `<`: otherwise the
+    implementation refuses the reference in an attribute value, as it must) *)
+Definition attr_piece (M : list str) (p : W.avpiece) : bool :=
+  match p with W.AvLit _ => true | W.AvChar c => W.isChar c | W.AvEnt n => W.mem n M end.
+Definition attr_okb (vs : list ent_value) : bool :=
+  if existsb (N.eqb 60) (x_repl vs) then true
+  else match W.p_pieces (Datatypes.S (length (x_repl vs))) None W.c_lt (x_repl vs) with
+       | Some (ps, []) => forallb (attr_piece (piece_names vs)) ps
+       | _ => false
+       end.
 Definition markup_ent (e : Info.entity) : bool :=
   match en_values e with
   | Some vs =>
@@ -82,6 +95,7 @@ Definition markup_ent (e : Info.entity) : bool :=
        | Some c => d04_cells d04_elem (snd c) && mk_cells (piece_names vs) (mk_elem (piece_names vs)) (snd c)
        | None => true
        end
+    && attr_okb vs
   | None => true
   end.
 
@@ -328,19 +342,26 @@ Proof.
   destruct v as [num r|n|n|s]; cbn [In] in Hin; try contradiction. destruct Hin as [<-|[]]. exact Hv.
 Qed.
 
-Lemma simple_pieces (vs : list ent_value) : Forall piece_wf vs -> forallb markup_piece vs = true -> forallb nolt_piece vs = true ->
-  forallb simple_piece vs = true.
+Lemma name_no_lt (n : str) : forallb (eval spec_NameChar) n = true -> existsb (N.eqb 60) n = false.
 Proof.
-  induction 1 as [|v vs Hv _ IH]; intros Hm Hn; [reflexivity|]. cbn [forallb] in *.
-  apply andb_prop in Hm. destruct Hm as [Hmv Hm]. apply andb_prop in Hn. destruct Hn as [Hnv Hn]. rewrite (IH Hm Hn), andb_true_r.
-  destruct v as [num r|n|n|s]; cbn [piece_wf markup_piece nolt_piece simple_piece] in *.
-  - destruct Hv as [_ Hc]. unfold plain_char. rewrite Hc, Hmv, Hnv. reflexivity.
-  - exact Hmv.
+  induction n as [|c n IH]; [reflexivity|]. cbn [forallb existsb]. intros H. apply andb_prop in H. destruct H as [Hc Hn].
+  rewrite (IH Hn), orb_false_r. destruct (N.eqb_spec 60 c) as [<-|]; [vm_compute in Hc; discriminate|reflexivity].
+Qed.
+
+Lemma nolt_text (vs : list ent_value) : forallb markup_piece vs = true -> forallb nolt_piece vs = true ->
+  existsb (N.eqb 60) (x_repl vs) = false.
+Proof.
+  induction vs as [|v vs IH]; intros Hm Hn; [reflexivity|]. cbn [forallb] in *.
+  apply andb_prop in Hm. destruct Hm as [Hmv Hm]. apply andb_prop in Hn. destruct Hn as [Hnv Hn].
+  change (x_repl (v :: vs)) with (x_replpiece v ++ x_repl vs). pose proof (IH Hm Hn) as IH'. unfold str, char in *. rewrite existsb_app, IH', orb_false_r.
+  destruct v as [num r|n|n|s]; cbn [markup_piece nolt_piece x_replpiece] in *.
+  - cbn [existsb]. rewrite orb_false_r. apply negb_true_iff in Hnv. rewrite N.eqb_sym. exact Hnv.
+  - cbn [existsb]. rewrite existsb_app. cbn [existsb]. rewrite !orb_false_r. change (60 =? 38) with false. cbn [orb].
+    destruct n as [|c n]; [discriminate|]. cbn [is_Name] in Hmv. apply andb_prop in Hmv. destruct Hmv as [Hc Hn'].
+    apply (name_no_lt (c :: n)). cbn [forallb]. rewrite Hn', andb_true_r.
+    revert Hc. apply (sub_sound spec_NameStartChar spec_NameChar). vm_compute. reflexivity.
   - discriminate Hmv.
-  - apply negb_true_iff in Hnv. clear Hmv. induction s as [|c s IHs]; [reflexivity|]. cbn [forallb existsb] in *.
-    apply andb_prop in Hv. destruct Hv as [Hc Hs]. apply orb_false_elim in Hnv. destruct Hnv as [H60 Hns].
-    rewrite (IHs Hs Hns), andb_true_r. unfold plain_char. apply andb_prop in Hc. destruct Hc as [H1 H2]. rewrite H1, H2. cbn [andb].
-    rewrite N.eqb_sym, H60. reflexivity.
+  - apply negb_true_iff in Hnv. exact Hnv.
 Qed.
 
 Lemma expand_entref_eq f en V nm : W.expand (Datatypes.S f) en V (W.XEntRef nm) =
@@ -396,7 +417,7 @@ Proof.
     destruct (en_values e) as [vs|] eqn:Ev.
     + (* internal *)
       assert (markup_ent e = true) as Hs by (rewrite forallb_forall in Hmk; apply Hmk; exact Hin).
-      unfold markup_ent in Hs. rewrite Ev in Hs. apply andb_prop in Hs. destruct Hs as [Hsp Hc].
+      unfold markup_ent in Hs. rewrite Ev in Hs. apply andb_prop in Hs. destruct Hs as [Hs _]. apply andb_prop in Hs. destruct Hs as [Hsp Hc].
       unfold content_okb in Hcont. rewrite Ev in Hcont. destruct (ent_content vs) as [c|] eqn:Ec; [|discriminate Hcont].
       apply andb_prop in Hc. destruct Hc as [Hd04 Hmkc].
       pose proof (ent_content_spec vs c Ec Hd04 (Datatypes.S (length (x_repl vs))) ltac:(lia)) as Hpc.
@@ -436,26 +457,26 @@ Proof.
     pose proof (assoc_declared ents ext en Hrel nm e Hl) as Ha. unfold x_entity in Ha.
     destruct (en_values e) as [vs|] eqn:Ev.
     + assert (markup_ent e = true) as Hs by (rewrite forallb_forall in Hmk; apply Hmk; exact Hin).
-      unfold markup_ent in Hs. rewrite Ev in Hs. apply andb_prop in Hs. destruct Hs as [Hmp _].
-      pose proof (Hwf e Hin) as Hw. unfold values_of in Hw, Hnolt, Hpieces. rewrite Ev in Hw, Hnolt, Hpieces.
-      pose proof (simple_pieces vs Hw Hmp Hnolt) as Hsp.
-      pose proof (toks_text vs Hsp) as Et. pose proof (toks_ok vs Hsp) as Hto.
-      assert (W.p_pieces (Datatypes.S (length (x_repl vs))) None W.c_lt (x_repl vs) = Some (map tok_piece (toks vs), [])) as Hpc.
-      { rewrite <- Et. apply pieces_toks; [exact Hto|lia]. }
+      unfold markup_ent in Hs. rewrite Ev in Hs. apply andb_prop in Hs. destruct Hs as [Hs Hat]. apply andb_prop in Hs. destruct Hs as [Hmp _].
+      unfold values_of in Hnolt, Hpieces. rewrite Ev in Hnolt, Hpieces.
+      unfold attr_okb in Hat. rewrite (nolt_text vs Hmp Hnolt) in Hat.
+      destruct (W.p_pieces (Datatypes.S (length (x_repl vs))) None W.c_lt (x_repl vs)) as [[ps [|c0 r0]]|] eqn:Hpc; try discriminate Hat.
       cbn [W.av_ok W.allc fold_right]. rewrite Hmem, Ha, Hpc.
-      change (W.andc (W.av_ok (Datatypes.S f) en (nm :: V) (map tok_piece (toks vs))) W.ok = None).
+      change (W.andc (W.av_ok (Datatypes.S f) en (nm :: V) ps) W.ok = None).
       rewrite av_ok_each; [reflexivity|].
-      intros p Hp. apply in_map_iff in Hp. destruct Hp as [t [<- Ht]]. destruct t as [c|m]; cbn [tok_piece]; [reflexivity|].
-      apply in_toks_entity in Ht. rewrite forallb_forall in Hpieces. specialize (Hpieces _ Ht). cbn [piece_goodb] in Hpieces. fold (look m) in Hpieces.
-      assert (incl (nm :: V) names) as Hincl' by (intros x [<-|Hx]; [rewrite <- En; apply in_map; exact Hin|apply Hincl; exact Hx]).
-      assert (NoDup (nm :: V)) as Hnd' by (constructor; assumption).
-      destruct (look m) as [e'|] eqn:Fm.
-      * apply (IH m e' (nm :: V) (Datatypes.S f) Fm Hpieces); try assumption.
-        -- intros v ev [<-|Hv] Hlv; [rewrite Hl in Hlv; injection Hlv as <-; exact Egk|].
-           specialize (Hinv v ev Hv Hlv). destruct (goodb2 ents ext true k ev) eqn:E; [|reflexivity]. apply goodb2_mono in E. congruence.
-        -- cbn [length] in *. lia.
-      * pose proof (visited_bound ents (nm :: V) Hnd' Hincl') as Hb'. cbn [length] in *. destruct f as [|f0]; [lia|].
-        apply (av_undeclared ents ext en Hrel); assumption.
+      intros p Hp. rewrite forallb_forall in Hat. specialize (Hat p Hp). destruct p as [c|c|m]; cbn [attr_piece] in Hat.
+      * reflexivity.
+      * cbn [W.av_ok W.allc fold_right]. rewrite Hat. reflexivity.
+      * apply Wmem_In in Hat. apply in_piece_names in Hat. rewrite forallb_forall in Hpieces. specialize (Hpieces _ Hat). cbn [piece_goodb] in Hpieces. fold (look m) in Hpieces.
+        assert (incl (nm :: V) names) as Hincl' by (intros x [<-|Hx]; [rewrite <- En; apply in_map; exact Hin|apply Hincl; exact Hx]).
+        assert (NoDup (nm :: V)) as Hnd' by (constructor; assumption).
+        destruct (look m) as [e'|] eqn:Fm.
+        -- apply (IH m e' (nm :: V) (Datatypes.S f) Fm Hpieces); try assumption.
+           ++ intros v ev [<-|Hv] Hlv; [rewrite Hl in Hlv; injection Hlv as <-; exact Egk|].
+              specialize (Hinv v ev Hv Hlv). destruct (goodb2 ents ext true k ev) eqn:E; [|reflexivity]. apply goodb2_mono in E. congruence.
+           ++ cbn [length] in *. lia.
+        -- pose proof (visited_bound ents (nm :: V) Hnd' Hincl') as Hb'. cbn [length] in *. destruct f as [|f0]; [lia|].
+           apply (av_undeclared ents ext en Hrel); assumption.
     + exfalso. apply (Hsys e Hin Ev). destruct (en_system e); [discriminate Hsysn|reflexivity].
 Qed.
 
